@@ -1,5 +1,6 @@
 import MxModel.Proofs.ItemSpaceBind
 import MxModel.Proofs.ItemSpaceGet
+import MxModel.Proofs.ItemSpaceTotal
 import MxModel.Generated.Tables
 /-!
 # C07 – ItemSpaces are parametrised, isolated, identity-stable instances of their base
@@ -111,6 +112,35 @@ theorem equal_keys_same_instance (defs : Defs) (t t1 : Table) (p : Addr) (a1 a2 
   obtain ⟨l, hl⟩ := getItem_live defs t p a1 k1
   rw [h1] at hl
   exact getItem_hit (nodeAt_append hl hn) hs (hk ▸ hb') hf
+
+/-- **A miss creates**: in every world reached from the empty one by any history, `get_itemspace` with a
+spelling that binds, on a live node whose parameter formula names an existing base, at a key that is not
+live, returns a NEW instance at that key built from that base, and appends exactly that ItemSpace and one
+replica per static space below the base.  (The two totalisation branches of the model - `addEntry` doing
+nothing on an address that is live already, `getItem` answering `.noNode` after a creation - never fire:
+`ItemSpace.getItem_noNode_iff` holds in every table, `ItemSpace.createItem_all_added` in every closed one.) -/
+theorem miss_creates_instance (ops : List Op) (parent : Addr) (args : List Val) (kw : KwArgs)
+    (nd : Node) (sig : Sig) (key : Key) (base : SDef)
+    (hn : nodeAt (run {} ops).defs (run {} ops).tbl parent = some nd) (hs : nd.sig = some sig)
+    (hb : bindArgs sig args kw = some key)
+    (hmiss : findLive (run {} ops).tbl ⟨parent.root, parent.dkey ++ [.key key]⟩ = none)
+    (hbase : baseOf (run {} ops).defs nd = some base) :
+    ∃ e t', getItem (run {} ops).defs (run {} ops).tbl parent args kw = (t', .ok e) ∧
+      e.addr = ⟨parent.root, parent.dkey ++ [.key key]⟩ ∧ e.base = base.id ∧
+      t'.live.length = (run {} ops).tbl.live.length + 1 + (descendants (run {} ops).defs base.path).length :=
+  reachable_creation_total ops parent args kw nd sig key base hn hs hb hmiss hbase
+
+/-- non-vacuity: `S(i)` with a child `S.X`, from the empty world; `S[1]` misses and creates `S[1]`, `S[1].X` -/
+example : ∃ e t', getItem (run {} [.newSpace ["S"] (some [⟨"i", none⟩]) none, .newSpace ["S", "X"] none none]).defs
+      (run {} [.newSpace ["S"] (some [⟨"i", none⟩]) none, .newSpace ["S", "X"] none none]).tbl ⟨0, []⟩ [1] [] = (t', .ok e) ∧
+      e.addr = ⟨0, [.key [1]]⟩ ∧ e.base = 0 ∧ t'.live.length = 0 + 1 + 1 :=
+  miss_creates_instance [.newSpace ["S"] (some [⟨"i", none⟩]) none, .newSpace ["S", "X"] none none] ⟨0, []⟩ [1] []
+    ⟨some [⟨"i", none⟩], none, 0⟩ [⟨"i", none⟩] [1] ⟨0, ["S"], some [⟨"i", none⟩], none⟩ rfl rfl rfl rfl rfl
+
+/-- `get_itemspace` answers "no such node" only when the parent node does not exist (every table) -/
+theorem no_node_only_without_parent (defs : Defs) (t : Table) (parent : Addr) (args : List Val) (kw : KwArgs) :
+    (∃ t', getItem defs t parent args kw = (t', .noNode)) ↔ nodeAt defs t parent = none :=
+  getItem_noNode_iff defs t parent args kw
 
 /-- **Different arguments give different instances that share nothing**: two live dynamic
 spaces with different addresses (different keys of one parent, different parents, different
